@@ -2,7 +2,10 @@ module verifharness
 
 go 1.20
 
-require github.com/google/go-tdx-guest v0.0.0
+require (
+	github.com/google/go-tdx-guest v0.0.0
+	google.golang.org/protobuf v1.34.2
+)
 
 require (
 	github.com/google/go-configfs-tsm v0.3.2 // indirect
@@ -10,7 +13,6 @@ require (
 	go.uber.org/multierr v1.11.0 // indirect
 	golang.org/x/crypto v0.17.0 // indirect
 	golang.org/x/sys v0.19.0 // indirect
-	google.golang.org/protobuf v1.34.2 // indirect
 )
 
 replace github.com/google/go-tdx-guest => /repo
